@@ -1309,6 +1309,9 @@ class Interp:
             if z3.is_int_value(i) and i.as_long() < 0:
                 i = z3.simplify(st.tlen() + i)
             return VRef(i, 'Event')
+        if st.spec and isinstance(obj, VQueue):
+            # specification view of a queue: its items in FIFO order
+            obj = VList(obj.t, obj.elem)
         if isinstance(key, VStr):
             obj = self.concretize(obj, (VRef, VKwargs, VConst))
         else:
